@@ -146,10 +146,27 @@ let db_names = [| "postgres"; "app"; "App"; "APP"; "shop_db"; "mytemplate"; "Tem
                   String.make 63 'd'; "tmpl"; "templat0e" |]
 let tpl_names = [| "template0"; "template1"; "template"; "templateX"; "template_postgis" |]
 let t_names = [| "users"; "Users"; "USERS"; "orders"; "order_items"; "accounts"; "Passwords"; "user_passwords"; "t"; "xpg_"; "PG_x"; "pg";
-                 "sql_features"; "caf\xc3\xa9_menu"; String.make 63 'n'; "a_b"; "Mixed_Case_Table"; "p"; "Pg_x"; "pgx_table" |]
+                 "sql_features"; "caf\xc3\xa9_menu"; "\xc3\x9cberweisung"; "kunden_\xc3\x84NDERUNG"; String.make 63 'n'; "a_b"; "Mixed_Case_Table"; "p"; "Pg_x"; "pgx_table" |]
 let pg_names = [| "pg_x"; "pg_"; "pg_statistic2"; "pg_class_copy"; "pg_Users"; "pg_users" |]
 let col_names = [| "id"; "name"; "email"; "Password"; "created_at"; "data"; "flag"; "c"; "Col"; "v\xc3\xa9rifi\xc3\xa9" |]
-let swapcase s = String.map (fun c -> if c >= 'a' && c <= 'z' then Char.uppercase_ascii c else if c >= 'A' && c <= 'Z' then Char.lowercase_ascii c else c) s
+(* ASCII letters and the Latin-1 letters U+00C0..U+00DE / U+00E0..U+00FE (UTF-8 C3 80..9E / C3 A0..BE without the signs C3 97,
+   C3 B7): a filter may differ from the name in the case of a non-ASCII letter (seeded change C01-18) *)
+let swapcase s =
+  let b = Bytes.of_string s in
+  let n = Bytes.length b in
+  let i = ref 0 in
+  while !i < n do
+    let c = Bytes.get b !i in
+    if c = '\xc3' && !i + 1 < n then begin
+      let d = Char.code (Bytes.get b (!i + 1)) in
+      if d >= 0x80 && d <= 0x9e && d <> 0x97 then Bytes.set b (!i + 1) (Char.chr (d + 0x20))
+      else if d >= 0xa0 && d <= 0xbe && d <> 0xb7 then Bytes.set b (!i + 1) (Char.chr (d - 0x20));
+      i := !i + 2 end
+    else begin
+      (if c >= 'a' && c <= 'z' then Bytes.set b !i (Char.uppercase_ascii c) else if c >= 'A' && c <= 'Z' then Bytes.set b !i (Char.lowercase_ascii c));
+      incr i end
+  done;
+  Bytes.to_string b
 let is_ascii s = let ok = ref true in String.iter (fun c -> if Char.code c >= 128 then ok := false) s; !ok
 let distinct_sample r (a : string array) n = take n (shuffle r (Array.to_list a))
 
@@ -192,6 +209,7 @@ let gen_rel r (p : prof) ~(fresh : unit -> int) ~(budget : int ref) (force : for
     if (dump && file) || chance r 2 3 then List.init ncols (fun i -> i + 1)
     else (let cur = ref 0 in List.init ncols (fun _ -> cur := !cur + 1 + rint r 2; !cur)) in       (* gaps: a relation that is not read *)
   let name = if p.pgforce && chance r 2 3 then pick r [| "pg_statistic2"; "pg_class_copy"; "pg_Users"; "pg_users"; "pg_aggregate" |]
+    else if p.tf = TfCaseSub && chance r 1 3 then pick r [| "\xc3\x9cberweisung"; "kunden_\xc3\x84NDERUNG"; "\xc3\xa9t\xc3\x89" |]
     else if p.pgnames && chance r 1 3 then pick r pg_names else pick r t_names in
   { oid; name; node; kind; cols; nums; file;
     nrows = (match force with ZeroCol -> rrange r 1 4 | _ -> if file then pick r [| 0; 1; 1; 2; 3; 3; 5; 8; 12 |] else 0);
@@ -518,6 +536,9 @@ let make_opts r (p : prof) (w : world) : options option =
       | DbTemplate -> (match w.tplnames with [] -> "template1" | l -> pick r (Array.of_list l)) in
     let visible = List.filter (fun n -> not (p.skipsys && String.length n >= 3 && String.sub n 0 3 = "pg_")) w.tables in
     let anyt = match (if visible <> [] && chance r 4 5 then visible else w.tables) with [] -> "users" | l -> pick r (Array.of_list l) in
+    (* a case-variant filter goes for a name with non-ASCII letters when there is one *)
+    let anyt = match List.filter (fun n -> not (is_ascii n)) visible with
+      | l when l <> [] && p.tf = TfCaseSub && chance r 2 3 -> pick r (Array.of_list l) | _ -> anyt in
     let tfilter = match p.tf with
       | TfNone -> "" | TfSub -> substring r anyt | TfCaseSub -> swapcase (substring r anyt) | TfNoMatch -> pick r [| "zzq"; "pg__"; "_pg" |]
       | TfWhole -> anyt | TfLonger -> if rbool r then anyt ^ "s" else "x" ^ anyt
